@@ -70,6 +70,76 @@ def is_len_event(b, s):
     return False
 
 
+WIDTH = {"u8": 8, "i8": 8, "bool": 8, "u16": 16, "i16": 16, "u32": 32, "i32": 32, "char": 32, "u64": 64, "i64": 64, "usize": 64, "isize": 64,
+         "u128": 128, "i128": 128, "f32": 32, "f64": 64}
+
+
+def c13d_casts(ctx, prog, impls):
+    """A value must reach the hasher at its full width: a narrowing cast (`c as u8`, `len as u32`) or a float<->int cast
+    makes distinct values feed equal bytes."""
+    o = ctx.ob("C13.d", "no-narrowing-cast-in-a-hash-body", "K3", "no StableHash / StableHasher body narrows an integer or converts between float and integer")
+    bodies = [b for im, b in impls]
+    bodies += [c for c in prog.bodies.values() if c.parent in {b.key for b in bodies}]
+    bodies += [b for b in prog.all_bodies(["qbice_stable_hash"]) if b.rec.get("trait_default") == HASHER or b.rec.get("trait") == HASHER]
+    n = 0
+    for b in bodies:
+        for a in b.assigns(lambda st: st["rv"]["k"] == "cast" and any(k in st["rv"].get("ck", "") for k in ("IntToInt", "FloatToInt", "IntToFloat", "FloatToFloat"))):
+            n += 1
+            rv = a.node["rv"]
+            pl = df.op_place(rv["op"])
+            sty = b.local_ty(pl[0]) if pl is not None and not pl[1] else None
+            dty = rv.get("ty")
+            if "IntToInt" not in rv["ck"]:
+                ctx.touch(b)
+                ctx.fail(o, a, "%s converts %s to %s before hashing" % (b.name, sty, dty))
+            elif sty in WIDTH and dty in WIDTH and WIDTH[dty] < WIDTH[sty]:
+                ctx.touch(b)
+                ctx.fail(o, a, "%s narrows %s to %s before hashing: values that differ in the dropped bits hash alike" % (b.name, sty, dty))
+    o.sites = n
+    if n < 1:
+        ctx.fail(o, "(program)", "expected the `char as u32` cast in the char impl (found no integer cast at all)")
+
+
+def c13a_raw(ctx, prog):
+    """A raw `write(&[u8])` of a run of bytes whose length is not fixed by the type (string bytes, C string bytes) is
+    ambiguous unless the length is hashed first: ("ab", "c") and ("a", "bc") would feed the same stream."""
+    o = ctx.ob("C13.a", "length-before-raw-bytes", "K1",
+               "every StableHasher::write of a variable-length byte run is dominated by a hashed length of that same run")
+    FIXED = re.compile(r"::to_(le|be|ne)_bytes$")
+    n = 0
+    for b in prog.all_bodies(["qbice_stable_hash", "qbice", "qbice_storage", "qbice_stable_type_id"]):
+        for s_ in b.calls_to(r"StableHasher::write$"):
+            os_ = list(df.origins_of_operand(b, s_.node["args"][1]))
+            if os_ and all((x.kind == "call" and FIXED.search(x.callee() or "")) or x.kind in ("agg", "const") or
+                           (x.kind == "param" and b.name.endswith("write_u8")) for x in os_):
+                continue
+            if b.rec.get("self_ty", "").startswith("core::mem::Discriminant"):
+                continue  # audited in C13.c: exactly size_of::<Self>() bytes
+            n += 1
+            ctx.touch(b)
+            srcs = {x.site for x in os_ if x.kind == "call"}
+            ok = False
+            for l_ in b.calls_to(r"StableHasher::(write_length_prefix|write_usize)$|StableHash::stable_hash$"):
+                if not b.site_dominates(l_, s_):
+                    continue
+                lo = list(df.origins_of_operand(b, l_.node["args"][1] if l_.node["fn"]["path"].endswith(("write_length_prefix", "write_usize")) else l_.node["args"][0]))
+                for x in lo:
+                    if x.kind == "call" and re.search(r"::len$", x.callee() or ""):
+                        # len() of the same byte run (or of the string it came from)
+                        recv = {y.site for y in df.origins_of_operand(b, x.site.node["args"][0]) if y.kind == "call"} | \
+                               {y.info for y in df.origins_of_operand(b, x.site.node["args"][0]) if y.kind == "param"}
+                        src_in = srcs | {y.info for z in srcs for y in df.origins_of_operand(b, z.node["args"][0]) if y.kind == "param"} | \
+                            {y.site for z in srcs for y in df.origins_of_operand(b, z.node["args"][0]) if y.kind == "call"}
+                        if recv & src_in or not recv:
+                            ok = True
+            if not ok:
+                ctx.fail(o, s_, "%s feeds a variable-length run of bytes to the hasher without hashing its length first: adjacent strings become ambiguous "
+                         "(\"ab\",\"c\" vs \"a\",\"bc\")" % b.name)
+    o.sites = n
+    if n < 2:
+        ctx.fail(o, "(program)", "expected >= 2 variable-length raw writes (write_str, CStr), found %d" % n)
+
+
 def c13a(ctx, impls):
     o = ctx.ob("C13.a", "length-before-repetition", "K9", "every loop feeding the hasher is preceded by a hashed length")
     n = 0
@@ -338,6 +408,8 @@ def run(ctx):
     if len(impls) < 95:
         ctx.fail(o, "(program)", "expected >= 95 StableHash impls, found %d" % len(impls))
     ctx.run_clause("C13.a", lambda c: c13a(c, impls))
+    ctx.run_clause("C13.a", lambda c: c13a_raw(c, prog))
     ctx.run_clause("C13.b", lambda c: c13b(c, prog, impls))
     ctx.run_clause("C13.c", lambda c: c13c(c, prog, impls))
     ctx.run_clause("C13.d", lambda c: c13d(c, prog))
+    ctx.run_clause("C13.d", lambda c: c13d_casts(c, prog, impls))
